@@ -13,6 +13,8 @@ For every private-selection primitive (found as the function feeding `choice(n, 
 Noise helpers:
   scale-helper        laplace_noise_scale == (2 if bounded else 1) * l1 / eps ;  gaussian_noise_scale == (2 if bounded else 1) * l2 * sigma(eps, delta)
   sampler-identity    gaussian_noise / laplace_noise draw with loc 0 and exactly the scale they are given
+  signature-order    established positional parameters keep their positions and defaults
+  log-measure        a keyed base measure enters the logits as numpy.log of the weights themselves (0 -> -inf), also when built through a helper
 Not decided: the numpy / scipy samplers themselves (trusted).
 """
 import ast
